@@ -275,6 +275,12 @@ def _flatten_agreement(ctx: Ctx):
     give every class the nearest declaration of each property (own > extends/mixins, depth first)."""
     from .. import flatten
     idx = Index(ctx.src, dirs=("generator",))
+    # a plugin must be a function of the model it is given: no container or memo that survives a run
+    from ..genlint import cross_run_state
+    nstate, hits = cross_run_state(idx, "generator/plugins/")
+    for rel, construct, msg, ln in hits:
+        ctx.fail("no-cross-run-state", construct, msg, rel, ln)
+    ctx.ok("no-cross-run-state", {"containers_examined": nstate})
     spec, structs = flatten.lattice()
     impls = [
         ("python", P_PYUTILS, lambda s: flatten.fold_python(idx, spec, structs, s)),
@@ -301,12 +307,6 @@ def _flatten_agreement(ctx: Ctx):
               f"an anonymous literal on a base-structure property gets the struct names {names} when reached through two "
               "inheriting structures and the base itself; they must be one non-empty name (else the field is emitted as "
               "`Option<None>`)", flatten.P_RC, None, sample={"names": names})
-    # a plugin must be a function of the model it is given: no container or memo that survives a run
-    from ..genlint import cross_run_state
-    nstate, hits = cross_run_state(idx, "generator/plugins/")
-    for rel, construct, msg, ln in hits:
-        ctx.fail("no-cross-run-state", construct, msg, rel, ln)
-    ctx.ok("no-cross-run-state", {"containers_examined": nstate})
     # anonymous literal types at every position of the discipline get a name and a class (python plugin)
     res = flatten.fold_python_literals(idx)
     ctx.floor("literal shapes folded", len(res), 6)
